@@ -194,6 +194,22 @@ def check_rows(ctx, live, rows, label, present=None, frame=None):
         # the same samples in other STORAGE TYPES of the received array (the law is about values): complex64 and, for the
         # samples on the real axis, a real float64 array; and as a read-only array.  Only grid rows at D <= 8 (margin 1/8
         # unit / sector, far above float32 resolution) and moderate radii.
+        if base["smode"] == "edge" and len(z):
+            # PSK edge rows: one angle step 2 pi/(1024 M) from a boundary, i.e. a relative margin of 6e-6 (M = 1024) or more -
+            # about 100 float32 roundings of the SAMPLE, so the complex64 copy lies on the same side and the exact oracle holds
+            try:
+                g2 = cc.demod_chunked(live.obj, z.astype(np.complex64))
+                w2 = np.nonzero(g2 != exp)[0]
+            except Exception as ex:
+                g2, w2 = None, np.arange(1)
+                ctx.violation(f"{label}: demodulate of a complex64 array raised {type(ex).__name__}: {ex}", dict(base, s=[items[0]], near=[near[0]], present=None, dtype="complex64"))
+            if g2 is not None and len(w2):
+                i = int(w2[0])
+                ctx.violation(f"{label}: demodulate(sample {items[i]} /{d}) stored as complex64 = {int(g2[i])}, nearest point {near[i]} carries label "
+                              f"{int(exp[i])} ({len(w2)} of {len(exp)} wrong)", dict(base, s=[items[i]], near=[near[i]], present=None, dtype="complex64"))
+                nbad += len(w2)
+            elif g2 is not None:
+                ctx.ok((label, "dtype", "complex64 edge"), n=len(exp))
         if base["smode"] == "grid" and d <= 8 and len(z):
             mod_ok = (np.abs(z) > 0.3) & (np.abs(z) < 5)
             ro = z.copy()
@@ -302,6 +318,14 @@ def history_specs(ctx):
                         ("PSK", 255, "uint8"), ("QAM", 100, "int16")):
         specs.append(dict(kind=kind, M=M, mtype=mt, seed=s, d=64, nsamp=24) if M in (8, 16, 64) and cc.spec_kind(kind) and (kind, M) in (("QAM", 16), ("PSK", 8), ("QAM", 64))
                      else dict(kind=kind, M=M, mtype=mt, calls=False))
+    # NON-INTEGER cardinalities must be rejected (the trace carries the integer part and frac = TRUE)
+    for kind, Mf in (("PSK", 8.5), ("QAM", 16.5), ("QAM", 4.000001), ("PSK", 2.5), ("PSK", 4.0000001), ("QAM", 63.99), ("PSK", 1023.5), ("QAM", 4.5),
+                     ("PSK", 16.25), ("QAM", 256.5)):
+        specs.append(dict(kind=kind, M=int(Mf), mfloat=Mf, calls=False))
+    # phase offsets a few 1e-9 away from the axes (the constellation is the ROTATED M-PSK one for every offset)
+    for M in cc.PSK_ORDERS:
+        k = int(math.log2(M))
+        specs.append(dict(kind="PSK", M=M, calls=False, phases=[(k % 4) * math.pi / 2 + 4e-9, -6e-9, math.pi + 9e-9, 2e-8 + math.pi / 2]))
     for M in (-1, -2, -4, -16, -64):
         for kind in ("PSK", "QAM"):
             specs.append(dict(kind=kind, M=M, calls=False))
